@@ -97,8 +97,9 @@ class Session:
                 core._restore_default(s.nodes[0])
             return None
         if kind == "reset_menu":
-            if k.menus:
-                node = k.menus[op[1] % len(k.menus)]
+            menus = [n for n in k.node_iter() if n.item == core.MENU]  # file order (Kconfig.menus is parser-specific)
+            if menus:
+                node = menus[op[1] % len(menus)]
                 core._recursively_perform_action(node, core._restore_default)
             return None
         if kind == "read":
